@@ -324,6 +324,17 @@ impl World {
     true
   }
 
+  /// Can nothing ever run again although timers may formally be alive: no ready
+  /// task, and every live timer is already due yet nobody waits on it (it was
+  /// created but never polled, so it can wake nobody)?
+  pub fn dead_quiet(&self) -> bool {
+    self.ready_len() == 0
+      && W.with(|w| {
+        let w = w.borrow();
+        w.timers.iter().filter(|t| !t.done).all(|t| t.waker.is_none() && t.due <= w.now)
+      })
+  }
+
   /// Is there nothing left that could ever run (no ready task, no live timer)?
   pub fn idle(&self) -> bool {
     self.ready_len() == 0 && live_timers() == 0
